@@ -269,6 +269,9 @@ def load_findings():
     return json.load(open(p))["findings"]
 
 
+ALL_VERDICTS = []      # every collector of this process (the driver reports what they hold if a later stage fails)
+
+
 class Verdicts:
     """Collects candidate violations, matches them against the known-findings
     file, writes replay files and produces the exit code."""
@@ -284,6 +287,8 @@ class Verdicts:
                     except OSError:
                         pass
         self.findings = [f for f in load_findings() if f["property"] == prop]
+        self.finished = False
+        ALL_VERDICTS.append(self)
         self.known_hit = {}
         self.violations = []
         self.nviol = {}
@@ -307,6 +312,7 @@ class Verdicts:
         return True
 
     def finish(self):
+        self.finished = True
         for key, v in sorted(self.known_hit.items()):
             log("KNOWN-FINDING: property=%s %s [key=%s, %d case(s)]" % (self.prop, v["what"], key, v["n"]))
         shown = set()
